@@ -92,7 +92,10 @@ pub fn inline_atom(rng: &mut Rng, depth: usize) -> String {
         25 => format!("{}{}", rng.pick(&["*", "_", "**", "__", "***", "~", "~~"]), word(rng)),
         26 => format!("{}{}", word(rng), rng.pick(&["*", "_", "**", "__", "***", "~", "~~"])),
         27 => "\n".into(),
-        28 => format!("[{}", inner(rng)),
+        28 => if rng.chance(1, 2) { format!("[{}", inner(rng)) } else {
+            // structures of the documented generics with custom markers
+            match rng.below(6) { 0 => format!("%{}%", inner(rng)), 1 => format!("%% {} %%", word(rng)), 2 => format!("${}$", word(rng)), 3 => format!("^{}^", inner(rng)), 4 => format!("=={}==", inner(rng)), _ => format!("?[{}](/q)", inner(rng)) }
+        },
         _ => sig_string(rng, 4),
     }
 }
@@ -236,6 +239,12 @@ pub fn malformed(rng: &mut Rng) -> String {
 
 /// the mixed stream every document-level oracle draws from
 pub fn any_doc(rng: &mut Rng) -> String {
+    let d = any_doc0(rng);
+    // a byte order mark in front of the document is ordinary text to the parser
+    if rng.chance(1, 40) { format!("\u{feff}{}", d) } else { d }
+}
+
+fn any_doc0(rng: &mut Rng) -> String {
     match rng.below(20) {
         0..=7 => grammar_doc(rng),
         8..=10 => { let s = rng.pick(&SPEC).clone(); s }
